@@ -32,6 +32,12 @@ def gen(rng, tier):
         lag = rng.choice([1, 1, 2, 3])
         nt = rng.choice([1, 2, 3, 3, 4, 6])
         lens = rng.sample([1, 2, lag, lag + 1, 3, 5, 7, 9, 12, 17, 23, 31], nt)
+        if nt >= 3 and rng.random() < 0.2:       # unequal lengths whose first one is their mean
+            m = rng.randint(3, 12)
+            d = [rng.randint(1, m - 1) for _ in range((nt - 1) // 2)]
+            rest = [m + x for x in d] + [m - x for x in d] + ([m] if (nt - 1) % 2 else [])
+            rng.shuffle(rest)
+            lens = [m] + rest
         trajs = [G.traj(rng, labs, L, sticky=rng.choice([0.3, 0.6, 0.8])) for L in lens]
         present = sorted({v for t in trajs for v in t})
         if len(present) < 2:
